@@ -488,7 +488,7 @@ class Outcome:
 
 
 class Explorer:
-    def __init__(self, constraints=(), max_paths=256, max_decisions=40):
+    def __init__(self, constraints=(), max_paths=2000, max_decisions=40):
         self.solver = z3.Solver()
         self.solver.set('timeout', 20000)
         self.solver.add(*constraints)
@@ -496,6 +496,7 @@ class Explorer:
         self.max_decisions = max_decisions
         self.solver_calls = 0
         self.paths = 0
+        self.choice_vars = {}
 
     def run(self, pre_db, body):
         """body(db_copy) -> coroutine or value.  Returns list of Outcome (one per feasible path)."""
@@ -558,6 +559,7 @@ def merge_outcomes(outs, pre_db):
         oob = b_or(oob, b_and(cond, o.db.oob))
     db.oob = oob
     db.fresh_n = max(o.db.fresh_n for o in outs)
+    db.fresh_prefix = pre_db.fresh_prefix
     db.err = {}
     return db
 
@@ -568,3 +570,18 @@ def exc_kind(e):
     n = type(e).__name__
     st = getattr(e, 'status', None) or getattr(e, 'status_code', None)
     return f'{n}'
+
+
+def choose(name, options, db=None):
+    """Harness-side symbolic shape choice: returns one concrete option on each explored path; the merged
+    result is symbolic in the fresh integer `name` (so the solver, not the harness, picks the shape)."""
+    options = list(options)
+    if _CTX is None:
+        raise HarnessError('choose() outside a glue run')
+    x = z3.Int(name)
+    _CTX.ex.choice_vars[name] = (x, options)
+    for i, o in enumerate(options[:-1]):
+        if _CTX.decide(x == i):
+            return o
+    _CTX.pc.append(x == len(options) - 1)
+    return options[-1]
